@@ -149,7 +149,10 @@ pub fn run_cases(cfg: &SandboxCfg, n: u64) -> Result<(Stats, Vec<(u64, Fate)>), 
             let mut w = match spawn(&args) {
                 Ok(w) => w,
                 Err(e) => {
-                    errors.lock().unwrap().push(format!("cannot spawn worker: {}", e));
+                    errors
+                        .lock()
+                        .unwrap()
+                        .push(format!("cannot spawn worker: {}", e));
                     return;
                 }
             };
@@ -161,7 +164,11 @@ pub fn run_cases(cfg: &SandboxCfg, n: u64) -> Result<(Stats, Vec<(u64, Fate)>), 
                 }
                 if start.elapsed() > budget {
                     local.capped = true;
-                    local.notes.insert(format!("wall budget of {} s reached; blocks from {} on were not run", budget.as_secs(), b));
+                    local.notes.insert(format!(
+                        "wall budget of {} s reached; blocks from {} on were not run",
+                        budget.as_secs(),
+                        b
+                    ));
                     break;
                 }
                 let lo = b * block;
@@ -177,14 +184,21 @@ pub fn run_cases(cfg: &SandboxCfg, n: u64) -> Result<(Stats, Vec<(u64, Fate)>), 
                         w = match spawn(&args) {
                             Ok(w) => w,
                             Err(e) => {
-                                errors.lock().unwrap().push(format!("cannot respawn worker: {}", e));
+                                errors
+                                    .lock()
+                                    .unwrap()
+                                    .push(format!("cannot respawn worker: {}", e));
                                 return;
                             }
                         };
                         for i in lo..hi {
                             let mut attempt = 0;
                             loop {
-                                let t = if attempt == 0 { case_timeout } else { case_timeout * 4 };
+                                let t = if attempt == 0 {
+                                    case_timeout
+                                } else {
+                                    case_timeout * 4
+                                };
                                 let t0 = Instant::now();
                                 match run_block(&mut w, i, i + 1, t) {
                                     BlockResult::Done(st) => {
@@ -196,7 +210,10 @@ pub fn run_cases(cfg: &SandboxCfg, n: u64) -> Result<(Stats, Vec<(u64, Fate)>), 
                                         w = match spawn(&args) {
                                             Ok(w) => w,
                                             Err(e) => {
-                                                errors.lock().unwrap().push(format!("cannot respawn worker: {}", e));
+                                                errors
+                                                    .lock()
+                                                    .unwrap()
+                                                    .push(format!("cannot respawn worker: {}", e));
                                                 return;
                                             }
                                         };
@@ -204,14 +221,22 @@ pub fn run_cases(cfg: &SandboxCfg, n: u64) -> Result<(Stats, Vec<(u64, Fate)>), 
                                             attempt = 1;
                                             continue;
                                         }
-                                        fates.lock().unwrap().push((i, Fate::Hang { waited_ms: t0.elapsed().as_millis() as u64 }));
+                                        fates.lock().unwrap().push((
+                                            i,
+                                            Fate::Hang {
+                                                waited_ms: t0.elapsed().as_millis() as u64,
+                                            },
+                                        ));
                                         break;
                                     }
                                     BlockResult::Died(how) => {
                                         w = match spawn(&args) {
                                             Ok(w) => w,
                                             Err(e) => {
-                                                errors.lock().unwrap().push(format!("cannot respawn worker: {}", e));
+                                                errors
+                                                    .lock()
+                                                    .unwrap()
+                                                    .push(format!("cannot respawn worker: {}", e));
                                                 return;
                                             }
                                         };
@@ -230,7 +255,10 @@ pub fn run_cases(cfg: &SandboxCfg, n: u64) -> Result<(Stats, Vec<(u64, Fate)>), 
     }
     for h in handles {
         if let Err(p) = h.join() {
-            errors.lock().unwrap().push(format!("sandbox driver thread panicked: {}", panic_message(&p)));
+            errors.lock().unwrap().push(format!(
+                "sandbox driver thread panicked: {}",
+                panic_message(&p)
+            ));
         }
     }
     let errs = errors.lock().unwrap().clone();
@@ -246,9 +274,15 @@ pub fn run_cases(cfg: &SandboxCfg, n: u64) -> Result<(Stats, Vec<(u64, Fate)>), 
 /// worker side: reads RUN lines, runs `case(idx, stats)` for each index, answers with END lines.
 pub fn worker_loop(mut case: impl FnMut(u64, &mut Stats)) -> i32 {
     // address-space limit so that unbounded allocation ends in an abort instead of taking the machine down
-    let mem: u64 = std::env::var("VERIF_WORKER_MEM_MB").ok().and_then(|s| s.parse().ok()).unwrap_or(6144);
+    let mem: u64 = std::env::var("VERIF_WORKER_MEM_MB")
+        .ok()
+        .and_then(|s| s.parse().ok())
+        .unwrap_or(6144);
     unsafe {
-        let lim = libc::rlimit { rlim_cur: mem * 1024 * 1024, rlim_max: mem * 1024 * 1024 };
+        let lim = libc::rlimit {
+            rlim_cur: mem * 1024 * 1024,
+            rlim_max: mem * 1024 * 1024,
+        };
         libc::setrlimit(libc::RLIMIT_AS, &lim);
     }
     let stdin = std::io::stdin();
@@ -267,11 +301,21 @@ pub fn worker_loop(mut case: impl FnMut(u64, &mut Stats)) -> i32 {
                 let r = std::panic::catch_unwind(std::panic::AssertUnwindSafe(|| case(i, &mut st)));
                 if let Err(p) = r {
                     let msg = panic_message(&p);
-                    st.violation("harness", "case_panicked_outside_guard", i, || format!("case {} panicked: {}", i, msg), || serde_json::json!({"index": i}));
+                    st.violation(
+                        "harness",
+                        "case_panicked_outside_guard",
+                        i,
+                        || format!("case {} panicked: {}", i, msg),
+                        || serde_json::json!({"index": i}),
+                    );
                 }
             }
             let mut out = stdout.lock();
-            let _ = writeln!(out, "END {}", serde_json::to_string(&st).unwrap_or_else(|_| "{}".into()));
+            let _ = writeln!(
+                out,
+                "END {}",
+                serde_json::to_string(&st).unwrap_or_else(|_| "{}".into())
+            );
             let _ = out.flush();
         } else if parts.first() == Some(&"QUIT") {
             break;
